@@ -1,7 +1,8 @@
 (* HtmlTie.v - what the translator (harness/t_html.py -> gen/Gen_Html.v) found
    in regress-html.c, checked against what the full theorems of property C14
    need: render_rate is the integer form and render_suite bounds its column
-   pointer (the repairs of defects D8 and D9).  These lemmas stop compiling when
+   pointer (the repairs of defects D8 and D9), with end = ri + VECTOR_LENGTH and the
+   loop test ri < end (HtmlProofs.walk_params_sane).  These lemmas stop compiling when
    either repair is taken out again; the check then also replays
    corpus/C14/00_d8_two_of_five.json, 03_d9_oob_one_invocation.json and
    04_d9_oob_full_vector.json on the real binary. *)
@@ -22,3 +23,11 @@ Proof. exact (no_oob_if_bounded walk_is_fixed). Qed.
 
 Lemma variants : rate_is_integer = true /\ walk_is_bounded = true.
 Proof. exact (conj rate_is_fixed walk_is_fixed). Qed.
+
+(* the end pointer of render_suite: end = ri + VECTOR_LENGTH(r->invocations), loop test ri < end *)
+Lemma variants_full :
+  rate_is_integer = true /\ walk_is_bounded = true /\ walk_end_extra = 0%Z /\ walk_end_strict = true.
+Proof.
+  split; [exact rate_is_fixed|]. split; [exact walk_is_fixed|].
+  destruct walk_params_sane as [Hb|H]; [rewrite walk_is_fixed in Hb; discriminate|exact H].
+Qed.
